@@ -50,6 +50,37 @@ MUTS = {
     if base.treats_as_sealed(self):""", """  def __delitem__(self, index: int) -> None:
     \"\"\"Delete an item from the List.\"\"\"
     if base.treats_as_sealed(self) and not isinstance(index, slice):"""),
+ 'M14-list-seal-walks-evaluated-elements (seeded C08-4)': ('pyglove/core/symbolic/list.py', """    for elem in self.sym_values():
+      if isinstance(elem, base.Symbolic):
+        elem.seal(sealed)""", """    for elem in self:
+      if isinstance(elem, base.Symbolic):
+        elem.seal(sealed)"""),
+ 'M15-precheck-skips-keys-of-the-receiver (seeded C08-5)': ('pyglove/core/symbolic/base.py', """    for path in path_value_pairs:
+      if not path:
+        continue
+      try:
+        parent_node = path.parent.query(self)""", """    for path in path_value_pairs:
+      if len(path) < 2:
+        continue
+      try:
+        parent_node = path.parent.query(self)"""),
+ 'M16-dict-clear-resets-accessor-writable (seeded C08-6)': ('pyglove/core/symbolic/dict.py', """    items = dict(self.sym_items())
+    self._value_spec = None
+    super().clear()""", """    items = dict(self.sym_items())
+    self.use_value_spec(None)
+    super().clear()"""),
+ 'M17-dict-seal-walks-evaluated-values': ('pyglove/core/symbolic/dict.py', """    for v in self.sym_values():
+      if isinstance(v, base.Symbolic):
+        v.seal(sealed)""", """    for k in self.sym_keys():
+      v = self.sym_inferred(k)
+      if isinstance(v, base.Symbolic):
+        v.seal(sealed)"""),
+ 'M18-list-pop-unseals': ('pyglove/core/symbolic/list.py', """    with flags.allow_writable_accessors(True):
+      del self[index]
+    return value""", """    with flags.allow_writable_accessors(True):
+      del self[index]
+    self.set_accessor_writable(True)
+    return value"""),
  'M13-extended-slice-skips-acc-guard': ('pyglove/core/symbolic/list.py', """    if not base.writtable_via_accessors(self):
       raise base.WritePermissionError(
           self._error_message('Cannot modify List item by __setitem__ while '""", """    if not base.writtable_via_accessors(self) and not (
